@@ -769,6 +769,10 @@ func c10Run(c c10Case) (v vVerdict) {
 					conn.Write([]byte{0x10, 3, 0, 0, 0x08, 0xff, 0x00, 0xee, 0, 0, 0, 1, 0, 0, 0, 9})
 				case "tiny":
 					conn.Write([]byte{1, 2, 3})
+				case "empty":
+					conn.Write([]byte{})
+				case "hdronly": // the 16 fixed header bytes of a packet that announces 8 more header bytes, and nothing else
+					conn.Write([]byte{0x10, 24, 0, 0, 0x81, 0x0b, 0x00, 0xff, 0, 0, 0, 1, 0, 0, 0, 9})
 				default: // text, e.g. a scanner's probe
 					conn.Write([]byte("GET / HTTP/1.0\r\n\r\n"))
 				}
@@ -878,7 +882,7 @@ func c10Gen(t *rapid.T) c10Case {
 				c.Ops = append(c.Ops, c10Op{Op: "wait", N: rapid.IntRange(0, 9).Draw(t, "waitn")})
 			}
 			if (c.Source == "udp" || c.Source == "udp2") && rapid.IntRange(0, 3).Draw(t, "garbage") == 0 {
-				c.Ops = append(c.Ops, c10Op{Op: "garbage", Kind: rapid.SampledFrom([]string{"text", "shorthdr", "tiny"}).Draw(t, "gkind"), N: rapid.IntRange(0, 400).Draw(t, "gn")})
+				c.Ops = append(c.Ops, c10Op{Op: "garbage", Kind: rapid.SampledFrom([]string{"text", "shorthdr", "tiny", "empty", "hdronly"}).Draw(t, "gkind"), N: rapid.IntRange(0, 400).Draw(t, "gn")})
 			}
 		}
 		if c.Source == "scripted" && rapid.IntRange(0, 2).Draw(t, "selfend") == 0 {
